@@ -322,7 +322,8 @@ def ref_step(desc, vals, pars, opts=None):
         V = [veq(rho[i], l["v_free"], l["rho_crit"], l["a"]) for i in range(N)]
         if l.get("vsl") is not None:
             vc = vals[lid]["v_ctrl"]
-            segs = sorted(l["vsl"])
+            # the constructor sorts what it is given; a list edited in place afterwards is used in its live order
+            segs = list(l["vsl"]) if l.get("vsl_live_order") else sorted(l["vsl"])
             if len(vc) != len(segs):
                 raise Inadmissible("speed-limit vector length")
             br.append(("vsl.n", min(len(segs), 2)))
@@ -359,7 +360,7 @@ def ref_step(desc, vals, pars, opts=None):
         merging = (
             delta is not None
             and o is not None
-            and o["kind"] in ("ramp", "simple")
+            and (o["kind"] in ("ramp", "simple") or o.get("declared_ramp"))
             and len(ins[up]) > 0
         )
         br.append(("merge", bool(merging)))
